@@ -282,6 +282,12 @@ def auto_discharge(P, s):
         small_plus_len = a[0] == 'bin' and a[1] == 'Add' and ((strip(a[2])[0] == 'int' and _is_len(a[3])) or (strip(a[3])[0] == 'int' and _is_len(a[2])))
         if a[0] == 'int' or (a[0] == 'call' and re.search(r'::(len|size_hint|count)$', a[1])) or small_plus_len:
             return 'DC-COUNTER', 'capacity is a constant or the length of an existing collection (bounded by memory already in use)'
+    if s['kind'] == 'unwrap' and s['ops']:
+        # write!/writeln! into a String: String's fmt::Write never fails, and a failing Display impl of an argument makes
+        # format!() — which the same text is otherwise built with — panic in exactly the same case
+        r0 = strip(s['ops'][0])
+        if r0[0] == 'call' and r0[3].endswith('fmt::Write::write_fmt') and len(r0) > 4 and re.search(r'<std::string::String as std::fmt::Write>', r0[4] or ''):
+            return 'DC-INFALLIBLE', 'formatting into a String (fmt::Write for String cannot fail; same panic condition as format!)'
     if s['kind'] == 'index':
         full = s['callee'].get('rfull', '') + ' ' + ' '.join(s['callee'].get('gargs', []))
         if 'RangeFull' in full:
